@@ -14,12 +14,6 @@ callable table and the canonicalisation of tools/k2.py; adds
            and the C02 monitor balances constructions against destructions, also when the root connect throws.
            blocks: `alloc` = unifex::allocate(s), `walloc a` = with_allocator(s, counting allocator a); events
            `alloc a` / `free a` (the harness also checks that a block goes back to the allocator it came from).
-  stage 6  stored values: a k2v2::payload constructed in operation-state storage (root buffer / allocator block) is a value an
-           algorithm stores for the user: `vctor <v>` / `vdtor <v>` on both sides (model TValCtor / TValDtor); the model's
-           error stores (`ector` / `edtor`: let_error's error_, finally's error_) are exception_ptr objects the harness cannot
-           see: model-only, dropped; the leaves of a let_error successor watch the bound error instead (`dtor_ewatch_dead`).
-           Direct monitor: a store is destroyed at most once and only after it was constructed, all are gone when the root
-           operation was destroyed, none is destroyed while a consumer operation that refers to it is alive.
   stage 3  more algorithms: let_value_with_stop_source (+ leaves whose callable requests stop on a chosen
            enclosing source), stop_if_requested, just_from, defer, repeat_effect_until (predicate = bit
            list), retry_when (n granted retries), into_variant.
@@ -271,26 +265,24 @@ def upon_cpp(k, f, sub):
 def to_cpp(e, bound=(), ss=()):
     """bound: tuple of C++ variable names, innermost first; ss: names of the pointers to the stop sources of the
     enclosing let_value_with_stop_source operations, outermost first"""
-    return _cpp(e, bound, ss, None, None)
+    return _cpp(e, bound, ss, None)
 
 
-def _cpp(e, bound, ss, watch=None, ewatch=None):
+def _cpp(e, bound, ss, watch=None):
     """watch: name of the pointer to the payload bound by the innermost enclosing let_value successor; the leaves of the
-    successor expression refer to it (C02: the successor operation must be destroyed before the bound value);
-    ewatch: the same for the exception_ptr bound by the innermost enclosing let_error successor"""
-    def to_cpp(x, b=bound, w=None, ew=None):
-        return _cpp(x, b, ss, w or watch, ew or ewatch)
-    wargs = ("," + (watch or "nullptr") + ("," + ewatch if ewatch else "")) if (watch or ewatch) else ""
+    successor expression refer to it (C02: the successor operation must be destroyed before the bound value)"""
+    def to_cpp(x, b=bound, w=None):
+        return _cpp(x, b, ss, w or watch)
     k = e[0]
     if k == "stopif": return "k2v2::stopif()"
     if k == "leafc": return "k2v2::leafc{%d}" % e[1]
     if k == "alloc": return "unifex::allocate(%s)" % to_cpp(e[1])
     if k == "walloc": return "k2v2::walloc(%s, %d)" % (to_cpp(e[2]), e[1])
-    if k == "leafr": return "k2v2::leafr(%d, %s%s)" % (e[1], ss[e[2]], wargs)
+    if k == "leafr": return "k2v2::leafr(%d, %s%s)" % (e[1], ss[e[2]], ", " + watch if watch else "")
     if k == "jfrom": return "k2v2::jfrom(%s)" % k2.cpp_fn(e[1])
     if k == "lvss":
         p = "p%d" % len(ss)
-        return "k2v2::lvss(%s, [=](auto* %s) { return %s; })" % ("true" if e[1] else "false", p, _cpp(e[2], bound, ss + (p,), watch, ewatch))
+        return "k2v2::lvss(%s, [=](auto* %s) { return %s; })" % ("true" if e[1] else "false", p, _cpp(e[2], bound, ss + (p,), watch))
     if k == "repeat":
         bits = e[1][1:]
         val = sum(1 << i for i, c in enumerate(bits) if c == "1")
@@ -300,8 +292,8 @@ def _cpp(e, bound, ss, watch=None, ewatch=None):
     if k == "retry":
         x = "x%d" % len(bound)
         return "k2v2::retry(%s, %d, [=](int %s) { return %s; })" % (to_cpp(e[2]), e[1], x, to_cpp(e[3], (x,) + bound))
-    if k == "leaf": return "k2v2::leaf{%d,false%s}" % (e[1], wargs)
-    if k == "leafn": return "k2v2::leaf{%d,true%s}" % (e[1], wargs)
+    if k == "leaf": return "k2v2::leaf{%d,false%s}" % (e[1], "," + watch if watch else "")
+    if k == "leafn": return "k2v2::leaf{%d,true%s}" % (e[1], "," + watch if watch else "")
     if k == "just": return "k2v2::just(%d)" % e[1]
     if k == "jerr": return "k2v2::inl{'e',%d}" % e[1]
     if k == "jdone": return "k2v2::inl{'d',0}"
@@ -325,8 +317,8 @@ def _cpp(e, bound, ss, watch=None, ewatch=None):
             a, x, x, x, x, x, to_cpp(e[2], (x,) + bound, "w" + x))
     if k == "lete":
         x = "x%d" % len(bound)
-        return "unifex::let_error(%s, [=](auto&& ep%s) { int %s = k2::code_of(ep%s); const std::exception_ptr* e%s = &ep%s; return %s; })" % (
-            a, x, x, x, x, x, to_cpp(e[2], (x,) + bound, None, "e" + x))
+        return "unifex::let_error(%s, [=](auto&& ep%s) { int %s = k2::code_of(ep%s); return %s; })" % (
+            a, x, x, x, to_cpp(e[2], (x,) + bound))
     b = to_cpp(e[2], bound)
     if k == "letd": return "unifex::let_done(%s, [=]() { return %s; })" % (a, b)
     if k == "seq": return "unifex::sequence(k2v2::voided(%s), %s)" % (a, b)
@@ -400,10 +392,7 @@ def emit_tu(cases):
 
 # ------------------------------------------------------------------------------------------ comparison
 # implementation-only markers: they feed the monitors, the model does not predict them
-IMPL_ONLY = ("fin ", "plive ", "blive ", "ctor ", "cthrow ", "dtor_ns ", "sdtor_ns ", "dtor_watch_dead ", "start_watch_dead ",
-             "dtor_ewatch_dead ", "start_ewatch_dead ")
-# model-only events: stores of errors (exception_ptr objects, not observable by the harness)
-MODEL_ONLY = ("ector ", "edtor ")
+IMPL_ONLY = ("fin ", "plive ", "blive ", "ctor ", "cthrow ", "dtor_ns ", "sdtor_ns ", "dtor_watch_dead ", "start_watch_dead ")
 
 
 def allocs_first(body):
@@ -426,7 +415,7 @@ def canon(trace):
     """k2.canon (stop cascades sorted, model-only `leak` dropped) after removing the implementation-only
     `fin <id>` completion markers (they feed the monitor)."""
     body, _, tail = trace.partition(" # ")
-    evs = [x for x in allocs_first(body).split(";") if x and x != "|" and not x.startswith(IMPL_ONLY) and not x.startswith(MODEL_ONLY)]
+    evs = [x for x in allocs_first(body).split(";") if x and x != "|" and not x.startswith(IMPL_ONLY)]
     return k2.canon(";".join(evs) + " # " + tail)
 
 
@@ -440,7 +429,7 @@ def canon_weak(trace):
     body, _, tail = trace.partition(" # ")
     batches, cur = [], []
     for x in allocs_first(body).split(";"):
-        if not x or x.startswith("leak ") or x.startswith(IMPL_ONLY) or x.startswith(MODEL_ONLY):
+        if not x or x.startswith("leak ") or x.startswith(IMPL_ONLY):
             continue
         if x == "|":
             batches.append(cur); cur = []
@@ -481,7 +470,6 @@ def monitor_ctx(e, evs):
 
 
 BOUND_DEAD = "C02: bound value destroyed before the successor operation that refers to it"
-STORE_BAD = "C02: stored value"
 
 
 def monitor(trace, e=None):
@@ -493,26 +481,8 @@ def monitor(trace, e=None):
     body, _, tail = trace.partition(" # ")
     evs = [x for x in body.split(";") if x and x != "|"]
     for x in evs:
-        if x.startswith(("dtor_watch_dead ", "start_watch_dead ", "dtor_ewatch_dead ", "start_ewatch_dead ")):
-            return BOUND_DEAD + " (leaf %s, %s%s)" % (x.split()[1], "destructor" if x.startswith("dtor") else "start",
-                                                       ", let_error's error" if "ewatch" in x else "")
-    # stage 6: every stored value (identity: the payload value; equal values are interchangeable) is destroyed only after
-    # it was constructed, at most once, and none survives the destruction of the root operation / a throwing root connect
-    stores = {}
-    for x in evs:
-        w = x.split()
-        if w[0] == "vctor":
-            stores[w[1]] = stores.get(w[1], 0) + 1
-        elif w[0] == "vdtor":
-            if stores.get(w[1], 0) <= 0:
-                return STORE_BAD + " %s destroyed twice, or destroyed without having been constructed" % w[1]
-            stores[w[1]] -= 1
-        elif w[0] == "vdtor_dead":
-            return STORE_BAD + ": destructor run on a dead / never constructed object in operation-state storage (%s)" % w[1]
-    if "root_dtor" in evs or "connect_throw" in evs:
-        left = sorted(v for v, n in stores.items() if n > 0)
-        if left:
-            return STORE_BAD + "(s) %s never destroyed although the operation was destroyed" % ",".join(left)
+        if x.startswith("dtor_watch_dead ") or x.startswith("start_watch_dead "):
+            return BOUND_DEAD + " (leaf %s, %s)" % (x.split()[1], "destructor" if x.startswith("dtor") else "start")
     roots = [x for x in evs if x.startswith("root ") ]
     if len(roots) > 1:
         return "C01: %d root completions" % len(roots)
@@ -522,7 +492,7 @@ def monitor(trace, e=None):
             return "C04: %s live stop-callback registration(s) on the receiver's token at completion" % m.group(1)
     if roots:
         after = evs[evs.index(roots[0]) + 1:]
-        bad = [x for x in after if not (x == "skip" or x == "root_dtor" or x.startswith("dtor ") or x.startswith("sdtor ") or x.startswith("plive ") or x.startswith("vdtor ")
+        bad = [x for x in after if not (x == "skip" or x == "root_dtor" or x.startswith("dtor ") or x.startswith("sdtor ") or x.startswith("plive ")
                                         or x.startswith("blive ") or x.startswith("free ")
                                         or x.startswith("dtor_ns ") or x.startswith("sdtor_ns "))]
         if bad:
@@ -759,7 +729,7 @@ def run_k2v2(chk, n_tus, cases_per_tu, scripts_per_case, size_range=(2, 8), cfg=
                                         "compile_failures": 0, "disagreements": 0, "dtor_events": 0,
                                         "callback_order_only": 0, "sched_runs": 0, "ctx_nonzero_events": 0,
                                         "throwing_values": 0, "throws_observed": 0,
-                                        "connect_throws": 0, "root_connect_throws": 0, "allocations": 0, "stores": 0})
+                                        "connect_throws": 0, "root_connect_throws": 0, "allocations": 0})
     for (name, cfgn, p, _, _), cases in zip(jobs, tus):
         exe, err = built[(name, cfgn)]
         if err:
@@ -792,7 +762,6 @@ def run_k2v2(chk, n_tus, cases_per_tu, scripts_per_case, size_range=(2, 8), cfg=
             stats["throws_observed"] += io.count("error 77")
             stats["connect_throws"] += io.count("cthrow ")
             stats["allocations"] += io.count("alloc ")
-            stats["stores"] = stats.get("stores", 0) + io.count("vctor ")
             stats["root_connect_throws"] += io.count("connect_throw")
             stats["ctx_nonzero_events"] += len(re.findall(r"ctx=[1-9]", io))
             mon = monitor(io, e) if not io.startswith("CRASH") else "crash: " + io[:200]
@@ -814,8 +783,6 @@ def run_k2v2(chk, n_tus, cases_per_tu, scripts_per_case, size_range=(2, 8), cfg=
             kinds = "+".join(sorted(set(kinds_of(e)) - {"leaf", "leafn", "just", "jerr", "jdone", "var"} - set(FNS)))
             if mon.startswith(BOUND_DEAD):
                 chk.violation("k2v2/monitor/C02/bound-value-dead", rp, text="%s | %s | %s" % (to_model(e), sc, mon))
-            elif mon.startswith(STORE_BAD):
-                chk.violation("k2v2/monitor/C02/stored-value/%s" % kinds, rp, text="%s | %s | %s" % (to_model(e), sc, mon))
             elif mon:
                 chk.violation("k2v2/monitor/%s/%s" % (mon.split(":")[0], kinds), rp, text="%s | %s | %s" % (to_model(e), sc, mon))
             else:
